@@ -316,6 +316,27 @@ Print Assumptions C06_enqueue_appends.
 Print Assumptions C06_enqueue_first_chat_refresh.
 Print Assumptions C06_enqueue_merges_repeated_chat_refresh.
 Print Assumptions C06_room_deleted_while_disconnected_repaired.
+(* The forced schedule of the harness "room join held at the backend, connection cut, a message for the session,
+   resume on a new connection, the backend replies" is written as the sequential history below (notes/strengthen-h2.md).
+   On the model's own trace of it the trace predicates of C06 and C07 - with the clauses "only sessions without a
+   connection wait for expiry", "the clients table holds exactly the sessions that have a connection", "a session that
+   has its connection survives the passing of time" - find nothing; and a digest in which the resumed session, attached
+   to connection 3, is in the expiry list and not in the clients table is rejected by both clauses. *)
+From Verif Require Import corr.Hub_preds proofs.Hub_refuted.
+Definition held_join_ops : list op :=
+  [OConnect 1 0; OConnect 2 0; OHello 1 (HV1 0 1 false); OHello 2 (HV1 0 2 false); OJoin 1 1 1 (RepOk None 0);
+   ODrop 2; OMsg 1 (RSession (IdPub 2)) 31; OConnect 3 0; OHello 3 (HResume (IdPriv 2)); OJoin 3 1 2 (RepOk None 0);
+   OMsg 1 (RSession (IdPub 2)) 41; OTick 40; OMsg 1 (RSession (IdPub 2)) 43;
+   ODrop 3; OMsg 1 (RSession (IdPub 2)) 45; OConnect 4 0; OHello 4 (HResume (IdPriv 2)); OTick 40].
+Example C06_example_held_join_history :
+  P_hub 6 (model_case 1 [0; 0] held_join_ops) = None /\ P_hub 7 (model_case 1 [0; 0] held_join_ops) = None.
+Proof. split; vm_compute; reflexivity. Qed.
+Example C06_example_attached_session_expiring_rejected :
+  let dg := mkdigest [mksd 2 0 0 2 2 (Some (0, 1)) 2 (Some 3) false None 0 0 0 false 0 0]
+                     [((0, 1), [2], [])] [(2, 2)] [(2, 2)] [] [2] [] [] [] 0 1 1 1 1 0 0 [0; 0] [((0, 1), [])] in
+  expiring_unattached dg = false /\ clients_attached dg = false.
+Proof. split; vm_compute; reflexivity. Qed.
+
 Print Assumptions C06_resume_flushes_queue.
 Print Assumptions C06_resume_closing_queue.
 Print Assumptions C06_upto_closing_none.
@@ -340,3 +361,5 @@ Print Assumptions C06_cut_marks_for_expiry.
 Print Assumptions C06_example_cut_two_messages_resume.
 Print Assumptions C06_example_queued_disinvite_resume.
 Print Assumptions C06_example_final.
+Print Assumptions C06_example_held_join_history.
+Print Assumptions C06_example_attached_session_expiring_rejected.
